@@ -260,6 +260,9 @@ func asm14RealExec(c *Ctx, op string) {
 		ids[k] = mk(k, v)
 	}
 	host := filepath.Join(base, "hostdir")
+	if caseCounter%2 == 0 { // a colon is an ordinary byte in a path; the mount spec is "<mode>:<path>"
+		host = filepath.Join(base, "host:dir:v2")
+	}
 	os.MkdirAll(filepath.Join(host, "hsub"), 0755)
 	os.WriteFile(filepath.Join(host, "hostfile"), []byte("host"), 0644)
 	hostBefore, _ := Snapshot(host)
